@@ -738,6 +738,12 @@ func (p *Parser) parseFunctionParameters() ([]ast.Node, bool) {
 	if !p.expectPeek(token.RPAREN) {
 		return nil, false
 	}
+	// Like the parameters of a lambda: names (and .. last), not whatever token stands there (func(1, +) {}).
+	if t, ok := okParamList(identifiers); !ok {
+		errLine, lineNum := p.ErrorLine(false)
+		p.errors = append(p.errors, fmt.Sprintf("%d: function parameters must be identifiers, not %s\n%s", lineNum, t.Literal(), errLine))
+		return nil, false
+	}
 	return identifiers, (p.prevToken.Type() == token.DOTDOT)
 }
 
